@@ -264,4 +264,44 @@ def splittingStep (ds : List Dist) (prev : List Nat) (idx : Nat) (σ : Pauli) :
   | some a, some b => some (new, acceptRatio a b)
   | _, _ => none
 
+/-! ### specification-side definitions (used by the theorems, not by the driver) -/
+
+/-- the stated channel on one qubit is a probability distribution -/
+def Dist.Valid (d : Dist) : Prop :=
+  0 ≤ d.i ∧ 0 ≤ d.x ∧ 0 ≤ d.y ∧ 0 ≤ d.z ∧ d.total = 1
+
+/-- the distribution whose `σ` entry is the `D σ` entry of `d` -/
+def permDist (D : PauliMap) (d : Dist) : Dist := ⟨d.i, d.get D.x, d.get D.y, d.get D.z⟩
+
+/-- left end of the interval of variates mapped to `σ` -/
+def Dist.lo (d : Dist) : Pauli → Rat
+  | .I => 0 | .X => d.i | .Y => d.i + d.x | .Z => d.i + d.x + d.y
+
+/-- right end (excluded) -/
+def Dist.hi (d : Dist) (σ : Pauli) : Rat := d.lo σ + d.get σ
+
+/-- `P(x-bit = a ∧ z-bit = b)` on one qubit -/
+def Dist.joint (d : Dist) (a b : Nat) : Rat := d.get (Pauli.ofBits a b)
+
+/-- probability of a Pauli string under independent qubits -/
+def stringProb (ds : List Dist) (s : List Pauli) : Rat := ratProd (List.zipWith Dist.get ds s)
+
+/-- all `4^n` Pauli strings on `n` qubits -/
+def allPaulis : Nat → List (List Pauli)
+  | 0 => [[]]
+  | n + 1 => [Pauli.I, .X, .Y, .Z].flatMap fun σ => (allPaulis n).map (σ :: ·)
+
+/-- the variates `us` lie in the product of the intervals of the letters of `s` -/
+def inBox : List Dist → List Pauli → List Rat → Prop
+  | [], [], [] => True
+  | d :: ds, σ :: s, u :: us => (d.lo σ ≤ u ∧ u < d.hi σ) ∧ inBox ds s us
+  | _, _, _ => False
+
+/-- Lebesgue measure of that box -/
+def boxVolume (ds : List Dist) (s : List Pauli) : Rat :=
+  ratProd (List.zipWith (fun d σ => d.hi σ - d.lo σ) ds s)
+
+/-- product of two Pauli letters up to phase -/
+def Pauli.mul (a b : Pauli) : Pauli := Pauli.ofBits (a.xBit + b.xBit) (a.zBit + b.zBit)
+
 end Panqec
